@@ -384,6 +384,11 @@ Definition ccs12 (s : hst) : hst * out :=
     if eqb (hs s) FIN then
       if lastccs s then (s, OIgnore)
       else if negb (server s) && eqb (tick s) T_RECVD_EXT then fatal s UNEXPECTED else ok (set_rsec s true)
+    else if h_dtls_ccs_signals_ticket_resumption && (eqb (hs s) CERT || eqb (hs s) SKE && psk s) && eqb (tick s) T_IN_LIMBO then
+      (* pending-fixes/C06-8 (present in the tree iff the generated constant says so): the ChangeCipherSpec that is the only
+         sign of a ticket resumption the ServerHello did not acknowledge (RFC 5077 3.4) is taken exactly as in TLS below;
+         before that repair it was skipped like every other one, and such a resumption could not complete *)
+      ok (set_tick (set_rsec (set_hs (set_resumed s true) FIN) true) T_INIT)
     else (s, ODrop false)
   else if eqb (hs s) FIN then
     if lastccs s then fatal s UNEXPECTED
